@@ -29,6 +29,7 @@ type Batch struct {
 	batches []nodeBatch
 	index   []int
 	err     error
+	routes  map[uint16]*redisNode // slot -> node chosen for it in this batch
 }
 
 type nodeBatch struct {
@@ -81,7 +82,7 @@ func (batch *Batch) Put(cmd string, args ...interface{}) error {
 		return nil
 	}
 
-	node, err := batch.cluster.ChooseNodeWithCmd(cmd, args...)
+	node, keys, err := batch.cluster.chooseNodeWithCmdAndKeys(cmd, false, args...)
 	if err != nil {
 		err = fmt.Errorf("run ChooseNodeWithCmd error : %w", err)
 		return batch.joinError(err)
@@ -90,6 +91,10 @@ func (batch *Batch) Put(cmd string, args ...interface{}) error {
 		// node is nil means no need to put
 		return nil
 	}
+	if batch.routes == nil {
+		batch.routes = make(map[uint16]*redisNode)
+	}
+	node = pinBatchRoute(batch.routes, node, keys)
 
 	var i int
 	for i = 0; i < len(batch.batches); i++ {
